@@ -77,6 +77,41 @@ def _c03_nontrivial(docs):
     return len(docs) >= 2 and len(s) >= 1
 
 
+def _strip_below_lists(sd, below=False, truthy_del=True):
+    sd = dict(sd)
+    if below:
+        sd.update({"form": "none" if sd["k"] in ("dict", "list", "scalar") else "tag", "pr": 9, "del": "N", "anew": "N", "safe": "N", "md": []})
+    if sd["del"] == "T" and ((sd["k"] in ("dict", "list") and not sd["ch"]) or (sd["k"] == "scalar" and not S.atom_py(sd["v"]))):
+        if not (sd["k"] == "scalar" and sd["v"] == ["n", ""]):
+            sd.update({"form": "none", "del": "N"})
+    sd["ch"] = [[k, _strip_below_lists(c, below or sd["k"] == "list")] for k, c in sd["ch"]]
+    return sd
+
+
+def _gen_c04(rng, max_stages):
+    g = S.Gen(rng, keys=("a", "b", "c"), atoms=(1, 2, 3, "x"), tags=("force", "weak", "del", "del", "merge"),
+              max_depth=rng.choice([2, 3, 4]), max_width=3, p_tag=0.35, p_empty=0.08, p_call=0.04,
+              leaf_extra=[S.SD("clear", None, form="tag"), S.with_tag(S.leaf(None), "del")])
+    n = rng.randint(2, max_stages)
+    docs = [_strip_below_lists(g.doc()) for _ in range(n)]
+    docs[0] = _strip_clear(docs[0])
+    return docs, [True] * n
+
+
+def _strip_clear(sd):
+    sd = dict(sd)
+    sd["ch"] = [[k, _strip_clear(c)] for k, c in sd["ch"] if c["k"] != "clear" and not (c["k"] == "scalar" and c["del"] == "T" and c["v"] == ["n", ""])]
+    if sd["k"] == "list":
+        sd["ch"] = [[S.ikey(i), c] for i, (_, c) in enumerate(sd["ch"])]
+    return sd
+
+
+def _c04_nontrivial(docs):
+    def has_del(sd):
+        return sd["del"] != "N" or sd["k"] in ("list", "clear") or any(has_del(c) for _, c in sd["ch"])
+    return len(docs) >= 2 and any(has_del(d) for d in docs[1:])
+
+
 BUILDER = {
     "C02": {
         "invariants": ["Inv_C02", "Inv_C02_NoKeyLost", "Inv_C02_Frame"],
@@ -105,6 +140,22 @@ BUILDER = {
                 "node per path, atomic lists, and one user-metadata key per node (universes named in configs); B: seeded random "
                 "histories (2-5 stages, depth<=4, 3 keys per level, consistent shapes). non-trivial = >=2 stages and at least one "
                 "priority tag; distinct by document content",
+    },
+    "C04": {
+        "invariants": ["Inv_C04"],
+        "exh": {"quick": [("C04_Docs", 2, 2, "C04_Range")],
+                "thorough": [("C04_Docs", 2, 2, "C04_Range"), ("C04_Docs3", 3, 3, "C04_Range3")]},
+        "mutations": [{"switch": "AbsLookup", "docs": "C04_Docs", "range": "C04_Range", "stages": (2, 2), "expect": ["Inv_C04"]},
+                      {"switch": "FnTruthyWhenEmpty", "docs": "C04_Docs", "range": "C04_Range", "stages": (2, 2), "expect": ["Inv_C04"]},
+                      {"mutation": "PruneEqualPriority", "docs": "C04_Docs", "range": "C04_Range", "stages": (2, 2), "expect": ["Inv_C04"]},
+                      {"mutation": "ClearRemovesKey", "docs": "C04_Docs", "range": "C04_Range", "stages": (2, 2), "expect": ["Inv_C04"]}],
+        "witness": "C04_Witness",
+        "gen": _gen_c04, "random": {"quick": 1500, "thorough": 30000}, "max_stages": 4,
+        "nontrivial": _c04_nontrivial,
+        "rule": "A: every 2-stage history of (older document: depth<=3, keys a b, !force leaves, a list, a !call node) x (newer "
+                "document: !del/!merge/!weak/none on every mapping, value-less !del and !clear leaves, lists with and without !merge), "
+                "child keys equal to ancestor keys included; B: seeded random 2-4 stage histories (depth<=4, 3 keys) over the same "
+                "vocabulary. non-trivial = the newer documents contain a deleting node (!del, list, !clear); distinct by content",
     },
 }
 
@@ -146,4 +197,14 @@ META["C03"] = {"engine": "builder-family", "design_ref": "DESIGN.md 5/C03",
             "the bounded universes; behaviours replayed through Builder; recorded deeper histories validated by TLC with the formula "
             "on logged outcomes; mutation cfgs ShallowPriority / PriorityGE / MdSpreadSwapped must be refuted.",
     "note": _BUILDER_NOTE + "; domain narrowed as DESIGN 5/C03 states (no mapping<->leaf change at a path, one priority tag per path, atomic lists)"}
+META["C04"] = {"engine": "builder-family", "design_ref": "DESIGN.md 5/C04",
+    "technique": "TLC model checking of AyBuild + trace validation / behaviour replay against the library",
+    "text": "TLC checks that the implementation-shaped merge (three-level delete flag, two-pass prune with relative lookup, "
+            "emptied-container early return, pre-filter of newer lists, premerge !clear, promotion) equals a two-operator declarative "
+            "oracle (Protect = older entries with strictly higher priority than the nearest newer node; Spec = key-wise / index-wise "
+            "combination after Protect) on every enumerated 2(3)-stage history, the oracle being evaluated from the OBSERVED older tree "
+            "and the newer document; behaviours replayed through Builder; recorded random histories validated by TLC; "
+            "mutation cfgs AbsLookup / FnTruthyWhenEmpty / PruneEqualPriority / ClearRemovesKey must be refuted.",
+    "note": _BUILDER_NOTE + "; domain narrowed as DESIGN 5/C04 states (uniform priority below lists, remove-this-key idiom and "
+            "vanishing !del containers excluded, function nodes as merge partners left to C13)"}
 NOT_APPLICABLE = {}
